@@ -10,6 +10,9 @@ type PropertyPlan struct {
 	Extra       func(cc *checkCtx) *extraResult
 }
 
+var descentLattice = overlayTest{Name: "descent-lattice", Level: "bounded", Src: "descent_lattice_test.go", PkgRel: "pointindex", Run: "^TestGvcDescentLattice$",
+	Bound: "bounded stand-in for the order of travel (not proved) and cross-check of the descent: SnapClosestPoints on a 4x4 pixel grid of depth 2, all 83521 quarter-lattice segments for the full hot set plus a sub-lattice for 6 (quick) / 60 (thorough) random hot sets, several level combinations, against an exact-rational oracle including the order of the centres"}
+
 var propertyPlans = map[string]*PropertyPlan{
 	"C17": {ID: "C17",
 		NotDecided: []string{},
@@ -28,9 +31,10 @@ func init() {
 	propertyPlans["C02"] = &PropertyPlan{ID: "C02",
 		Extra: func(cc *checkCtx) *extraResult {
 			return cc.runOverlayTests([]overlayTest{{Name: "lineIntersects-lattice", Level: "bounded", Src: "lineintersects_lattice_test.go", PkgRel: "pointindex", Run: "^TestGvcLineIntersectsLattice$",
-				Bound: "sanity cross-check of the specification, not counted as proved: all 83521 segments with endpoints on the quarter-pixel lattice of a 4x4 pixel window against exact rational clipping"}})
+				Bound: "sanity cross-check of the specification, not counted as proved: all 83521 segments with endpoints on the quarter-pixel lattice of a 4x4 pixel window against exact rational clipping"},
+				descentLattice})
 		},
-		NotDecided: []string{"order of travel of the returned centres", "the level-by-level descent of snapClosestPoints (which parents are visited, which list a level's result is)", "second sentence (non-collapsing polygon = concatenation of routed edges)"},
+		NotDecided: []string{"order of travel of the returned centres is only checked by the bounded stand-in descent-lattice", "that insertCoord establishes the index invariant indexInv (it is a precondition of the descent contracts)", "second sentence (non-collapsing polygon = concatenation of routed edges)"},
 	}
 	propertyPlans["C14"] = &PropertyPlan{ID: "C14",
 		NotDecided: []string{"that a tile matrix set accepted by validation has root 1x1 and a power-of-two tile width (IsQuadTree does not check it); for the 14 built-in sets this is checked on the data (extra, exhaustive-data)"},
